@@ -155,3 +155,26 @@ V("C03", "horner-to-expanded", "silent", "", "code4p Horner form expanded",
   (IC + "code4p.py", "        tmp1 = asquare * 3.0 - 10.0\n        tmp2 = asquare * tmp1 + 15.0\n        tmp3 = asquare * tmp2", "        tmp3 = 3.0 * asquare * asquare * asquare - 10.0 * asquare * asquare + 15.0 * asquare"))
 V("C03", "slow-rename", "silent", "", "slow code0 locals renamed",
   (IC + "code0.py", "        delta_up = up - nom\n        delta_down = nom - down\n        if alpha > 0:\n            delta = delta_up * alpha\n        else:\n            delta = delta_down * alpha", "        du = up - nom\n        dd = nom - down\n        if alpha > 0:\n            delta = alpha * du\n        else:\n            delta = alpha * dd"))
+
+# ------------------------------------------------------------------ C07
+CA = "src/pyhf/infer/calculators.py"
+V("C07", "two-a-dropped", "fire", "C07.R1", "/(2 sqrt qA) -> /(sqrt qA)",
+  (CA, "teststat = (qmu - qmu_A) / (2 * self.sqrtqmuA_v)", "teststat = (qmu - qmu_A) / (self.sqrtqmuA_v)"))
+V("C07", "shift-sign", "fire", "C07.R1", "s+b distribution shifted the wrong way",
+  (CA, "sb_dist = AsymptoticTestStatDistribution(-self.sqrtqmuA_v, cutoff)", "sb_dist = AsymptoticTestStatDistribution(self.sqrtqmuA_v, cutoff)"))
+V("C07", "complement", "fire", "C07.R3", "p-value as 1 - cdf",
+  (CA, "return_value = tensorlib.normal_cdf(-(value - self.shift))", "return_value = 1 - tensorlib.normal_cdf(value - self.shift)"))
+V("C07", "cutoff-one-side", "fire", "C07.R4", "clipped cutoff missing on the b-only distribution",
+  (CA, "b_dist = AsymptoticTestStatDistribution(0.0, cutoff)", "b_dist = AsymptoticTestStatDistribution(0.0)"))
+V("C07", "band-reordered", "fire", "C07.R5", "band evaluated in ascending order",
+  (CA, "for n_sigma in [2, 1, 0, -1, -2]", "for n_sigma in [-2, -1, 0, 1, 2]"))
+V("C07", "branches-swapped", "fire", "C07.R2", "qtilde branches swapped",
+  (CA, "(sqrtqmu_v <= self.sqrtqmuA_v), _true_case, _false_case", "(sqrtqmu_v <= self.sqrtqmuA_v), _false_case, _true_case"))
+V("C07", "cls-product", "fire", "C07.R1", "CLs computed as product",
+  (CA, "        CLs = tensorlib.astensor(CLsb / CLb)\n        return CLsb, CLb, CLs\n\n    def expected_pvalues(self, sig_plus_bkg_distribution, bkg_only_distribution):\n        r\"\"\"\n        Calculate the :math:`\\mathrm{CL}_{s}` values corresponding to the\n        median significance of variations of the signal strength from the\n        background only hypothesis :math:`\\left(\\mu=0\\right)` at\n        :math:`(-2,-1,0,1,2)\\sigma`.\n\n        Example:\n\n            >>> import pyhf\n            >>> pyhf.set_backend(\"numpy\")\n            >>> model = pyhf.simplemodels.uncorrelated_background(", "        CLs = tensorlib.astensor(CLsb * CLb)\n        return CLsb, CLb, CLs\n\n    def expected_pvalues(self, sig_plus_bkg_distribution, bkg_only_distribution):\n        r\"\"\"\n        Calculate the :math:`\\mathrm{CL}_{s}` values corresponding to the\n        median significance of variations of the signal strength from the\n        background only hypothesis :math:`\\left(\\mu=0\\right)` at\n        :math:`(-2,-1,0,1,2)\\sigma`.\n\n        Example:\n\n            >>> import pyhf\n            >>> pyhf.set_backend(\"numpy\")\n            >>> model = pyhf.simplemodels.uncorrelated_background("))
+V("C07", "precondition-removed", "fire", "C07.R6", "distributions no longer checks teststatistic ran",
+  (CA, "        if self.sqrtqmuA_v is None:\n            raise RuntimeError(\"need to call .teststatistic(poi_test) first\")\n", ""))
+V("C07", "lt-at-seam", "silent", "", "<= -> < at the continuous seam",
+  (CA, "(sqrtqmu_v <= self.sqrtqmuA_v), _true_case, _false_case", "(sqrtqmu_v < self.sqrtqmuA_v), _true_case, _false_case"))
+V("C07", "algebraic-rewrite", "silent", "", "false case rewritten as 0.5*(q/a - a)",
+  (CA, "teststat = (qmu - qmu_A) / (2 * self.sqrtqmuA_v)", "teststat = 0.5 * (qmu / self.sqrtqmuA_v - self.sqrtqmuA_v)"))
